@@ -94,6 +94,7 @@ Report(k, tags) ==
 
 Check(k) ==
     IF "reset" \in DOMAIN Rec[k] THEN TRUE
+    ELSE IF "pathissue" \in DOMAIN Rec[k] THEN PrintT(<<"PATHISSUE", ToJson(Rec[k])>>)
     ELSE LET tags == StepTags(k) IN
          IF tags = {} THEN TRUE
          ELSE IF tags = {Tag("run", "skipped", "", "")} THEN PrintT(<<"SKIPPED", k>>)
